@@ -73,6 +73,9 @@ AE = "bionumpy/encodings/alphabet_encoding.py"
 
 MUTANTS += [
     # ---- C15 ----------------------------------------------------------------------------
+    dict(prop="C15", name="scientific-batch-offset-not-translated (original defect of 5daad40)", file="bionumpy/io/strops.py",
+         old="        numbers[scientific] = _parse_part(_scientific_str_to_float, number_text[scientific], number_text, np.flatnonzero(scientific))",
+         new="        numbers[scientific] = _scientific_str_to_float(number_text[scientific])"),
     dict(prop="C15", name="reader-offset-not-added-raw", file=P,
          old="            try:\n                buff = self._buffer_type.from_raw_buffer(chunk, header_data=self._header_data)\n            except FormatException as e:\n                e.line_number += self.n_lines_read\n                raise e",
          new="            try:\n                buff = self._buffer_type.from_raw_buffer(chunk, header_data=self._header_data)\n            except FormatException as e:\n                raise e"),
